@@ -96,9 +96,9 @@ def isPkgDir (fs : Fs) (d : Path) : Bool := fs.exists (d ++ [INIT_PY])
 def pkgChainOK (fs : Fs) (top : Path) (pkg : List Str) : Bool :=
   (List.range pkg.length).all (fun k => isPkgDir fs (top ++ pkg.take (k + 1)))
 
-/-- neither `top` nor any directory above it (up to '/') is a package directory -/
+/-- neither `top` nor any directory above it (below '/') is a package directory -/
 def noInitUpTo (fs : Fs) (top : Path) : Bool :=
-  (List.range (top.length + 1)).all (fun k => !isPkgDir fs (top.take k))
+  (List.range top.length).all (fun k => !isPkgDir fs (top.take (k + 1)))
 
 /-- executable version for the driver: the longest chain ending at `dir` (reversed path) -/
 def packageOfRev (fs : Fs) : List Str → List Str
